@@ -431,7 +431,7 @@ def run(ctx):
     if got is not None and got != "4 312 139 334 382":
         bad.append(("csrdec " + hx(CSR), "the valid certificate request of bpki_test.c is not decoded as expected: `%s`" % got[:200]))
     # (ii) mutants
-    second, acc = [], 0
+    second, acc, got = [], 0, []
     kinds = {}
     for op, out in zip(ops, res):
         kinds[op.split(" ")[0]] = kinds.get(op.split(" ")[0], 0) + 1
@@ -456,7 +456,7 @@ def run(ctx):
             elif g != exp:
                 bad.append((op, "%s fails: `%s` -> `%s`, accepted `%s`" % (what, s_op[:200], g[:300], exp[:300])))
     # correspondence with the Lean models of the bpki codecs (Bee2V/C08/Model3.lean)
-    modelled = ("pkdec", "shdec", "eddec", "csrdec", "pkenc", "shenc", "edenc")
+    modelled = ("pkdec", "shdec", "eddec", "csrdec", "pkenc", "shenc", "edenc", "bpdec", "bpenc")
     mops = [(o, r) for o, r in list(zip(enc_ops, enc_out)) + list(zip(ops, res)) if o.split(" ")[0] in modelled]
     mism = []
     if mops and os.path.exists(ctx.driver()):
@@ -464,6 +464,14 @@ def run(ctx):
         if lrc != 0 or len(lres) != len(mops):
             raise RuntimeError("Lean driver failed on container ops: " + lerr[-300:])
         mism = [(o, c, l) for (o, c), l in zip(mops, lres) if c != l and not c.startswith("CRASH")]
+    # second-pass ops of the modelled kinds (re-encodings of accepted mutants)
+    if second and os.path.exists(ctx.driver()):
+        sops = [(s_[2], g) for s_, g in zip(second, got) if s_[2].split(" ")[0] in modelled and not g.startswith("CRASH")]
+        if sops:
+            lres2, _, lrc2 = ctx.run_lines(ctx.driver(), [o for o, _ in sops])
+            if lrc2 == 0 and len(lres2) == len(sops):
+                mism += [(o, c, l) for (o, c), l in zip(sops, lres2) if c != l]
+                mops = mops + sops
     ctx.cov["containers_model_ops"] = len(mops)
     ctx.cov["containers_model_disagreements"] = len(mism)
     ctx.cov["containers"] = {"samples": len(valid), "ops_by_kind": kinds, "accepted": acc, "rejected": len(ops) - acc,
